@@ -127,6 +127,41 @@ def run(chk, replay=None):
         chk.violation({"class": "jet-table", "what": (chk.proof.get("where", "") + " " + chk.proof.get("failure", "")[-300:])},
                       {"broken": "Properties/C13.v no longer checks against the regenerated jet table (layout agreement / family reference / pinned signatures)",
                        "detail": chk.proof.get("failure", "")[-2000:]}, no_input=True)
+    # ---- the documented spelling of the types: every builtin alias name is usable as a type and denotes its documented type;
+    #      every jet can be called with its parameters and result spelled through the aliases
+    by_ty = {}
+    al = [(n, progen.sx_to_ty(tsx)) for (n, tsx) in t["aliases"] if tsx is not None]
+    for n, ty in al:
+        by_ty.setdefault(ty, n)
+    atexts = ["fn main() { let x: %s = witness::X; }" % n for n, _ in al]
+    for (n, ty), x in zip(al, impl("core", ["(ast %s)" % quote(a) for a in atexts])):
+        ln = "(ast %s)" % quote("fn main() { let x: %s = witness::X; }" % n)
+        chk.case(ln, sample={"alias": n, "outcome": x[:60]})
+        chk.count("alias." + ("ok" if x.startswith("(ok") else "rejected"))
+        want = "(X %s)" % gen.ty_sx(ty)
+        if not x.startswith("(ok") or want not in x:
+            chk.violation({"class": "jet-not-callable", "what": "builtin alias %s: %s" % (n, x[:120])},
+                          {"cmd": "core", "line": ln, "implementation": x[:600], "expected_witness": want,
+                           "broken": "a documented builtin type alias is not accepted as a type, or does not denote its documented type"})
+
+    def spell(ty):
+        return by_ty.get(ty) or gen.ty_src(ty)
+    aprogs = []
+    for idx, name, ps, ret in rows:
+        if any(p in by_ty for p in ps) or ret in by_ty:
+            lets = " ".join("let a%d: %s = witness::A%d;" % (i, spell(p), i) for i, p in enumerate(ps))
+            aprogs.append((name, "fn main() { %s let r: %s = jet::%s(%s); }" % (lets, spell(ret), name, ", ".join("a%d" % i for i in range(len(ps))))))
+    known_reserved = {"verify", "check_sig_verify"}
+    for (name, text), x in zip(aprogs, impl("core", ["(commit %s () 0)" % quote(p) for _, p in aprogs])):
+        if name in known_reserved:
+            continue
+        ln = "(commit %s () 0)" % quote(text)
+        chk.case(ln, sample={"jet": name, "outcome": x[:60]})
+        chk.count("alias-call." + x.split(" ")[0].strip("("))
+        if not x.startswith("(ok"):
+            chk.violation({"class": "jet-not-callable", "what": "%s with alias-spelled types: %s" % (name, x[:120])},
+                          {"cmd": "core", "line": ln, "program": text, "implementation": x[:600],
+                           "broken": "a jet cannot be called with its documented parameter / result types spelled through the builtin aliases"})
     # ---- every jet is callable with one witness per documented parameter, result bound at the documented type
     progs = []
     for idx, name, ps, ret in rows:
